@@ -39,6 +39,9 @@ BFS_SMALL = dict(N=2, HSet="{22}", SchedSet="{21}", ExpirySet="{0, 21}", BndSet=
 BFS_MID = dict(BFS_SMALL, HSet="{21, 22}", ExpirySet="{0, 22}", EstKs="{1}")
 BFS_BIG = dict(BFS_SMALL, HSet="{21, 22}", ExpirySet="{0, 22}", AnsSet='{"sat", "notyet", "spent"}')
 BFS_SIGN = dict(BFS_SMALL, InitSt='{"A", "S"}', KindSet='{"xfer"}', ExpirySet="{0}", PctSet="{50}")
+BFS_ONE = dict(BFS_SMALL, N=1, HSet="{21, 22}", ExpirySet="{0, 22}", InitSt='{"A", "S"}',
+               AnsSet='{"sat", "notyet", "spent", "expired"}', EstKs="{1, 3}")
+BFS_PROVE3 = dict(BFS_SMALL, N=3, HSet="{22}", ExpirySet="{0}", AnsSet='{"sat", "notyet"}', EstKs="{1}")
 SIM = dict(N=3, HSet="{21, 22, 23, 24, 25}", SchedSet="{20, 21, 22, 23, 25}", ExpirySet="{0, 22, 24, 60, 61}",
            BndSet="{9, 10, 11, 12, 13, 15}", PctSet="{0, 20, 50, 100}", TolSet="{16, 33}", CvSet="{1, 2, 5}",
            InitSt='{"S"}', KindSet='{"prep", "xfer"}', AnsSet='{"sat"}', EstKs="{1}", MinedSets='"some"')
@@ -113,13 +116,13 @@ def run(ctx):
 
     # (0) the store model: <= 1 pending migration per account, Get o Replace = id, history retained
     rs = lib.tlc(ctx, d, "MigrationStore", "MigrationStore.cfg", workers=4, timeout=600)
-    lib.require_coverage(rs, ["Replace", "Cancel"])
+    lib.require_coverage(rs, ["Replace", "Update", "Cancel", "Rollback"])
     lib.account_tlc(ctx, rs)
 
     # (1)+(2a) breadth first over two transactions: invariants on the whole graph, and every edge
     # leaving a state at most `level` deep replayed on the real code
-    runs = [("small", BFS_SMALL, 3), ("sign", BFS_SIGN, 3)] if ctx.quick() else \
-           [("small", BFS_SMALL, 4), ("sign", BFS_SIGN, 5)]
+    runs = [("small", BFS_SMALL, 3), ("sign", BFS_SIGN, 3), ("one", BFS_ONE, 100)] if ctx.quick() else \
+           [("small", BFS_SMALL, 4), ("sign", BFS_SIGN, 5), ("one", BFS_ONE, 100), ("prove3", BFS_PROVE3, 2)]
     for name, consts, level in runs:
         cfg = "Bfs_%s.cfg" % name
         write_cfg(os.path.join(d, cfg), consts, emit=True, emit_level=level)
